@@ -89,4 +89,17 @@ func init() {
 	gtFamily("77-gotrans-checker", []gtItem{
 		it("parsepasses", "contains"),
 	})
+	// soyjs/scope.go: the naming functions of the JavaScript generator, with the receiver's stack and counter as
+	// explicit state (Model/JsGen.v jsc_*)
+	gtFamily("78-gotrans-soyjs-scope", []gtItem{
+		it("soyjs", "scope.push"),
+		it("soyjs", "scope.pop"),
+		it("soyjs", "scope.genname"),
+		it("soyjs", "scope.bind"),
+		it("soyjs", "scope.makevar"),
+		it("soyjs", "scope.lookup"),
+		it("soyjs", "scope.pushForRange"),
+		it("soyjs", "scope.pushForEach"),
+		it("soyjs", "scope.loop"),
+	})
 }
